@@ -96,6 +96,107 @@ pub fn adf_query(id: &str, qid: &str, q: &[String], adf: &mut Adf, _parser: &Adf
             )
             .unwrap();
         }
+        "roundtrip" => {
+            // C14: export / import round trips; the imported object replaces the original for the following queries
+            let before = crate::table_string(&adf.bdd);
+            let ac_before = handles_string(&adf.ac);
+            #[cfg(adf_obdd_verif)]
+            let audit_before = adf.bdd.verif_audit();
+            let new_adf: Adf = match q[1].as_str() {
+                "json" | "jsonnofix" => {
+                    let s = serde_json::to_string(&*adf).unwrap();
+                    let mut a2: Adf = serde_json::from_str(&s).unwrap();
+                    if q[1] == "json" {
+                        a2.fix_import();
+                    }
+                    a2
+                }
+                _ => {
+                    // the web service's path: plain node list + ordering + roots
+                    let bdd = adf_bdd::obdd::Bdd::from(adf.bdd.nodes.clone());
+                    Adf::from((adf.ordering.clone(), bdd, adf.ac.clone()))
+                }
+            };
+            let after = crate::table_string(&new_adf.bdd);
+            #[allow(unused_mut)]
+            let mut audit = String::new();
+            #[cfg(adf_obdd_verif)]
+            {
+                let pick = |a: &str, key: &str| a.lines().find(|l| l.starts_with(key)).unwrap_or("").to_string();
+                let audit_after = new_adf.bdd.verif_audit();
+                audit = format!(
+                    " uniq_equal={} vdeps_equal={}",
+                    (pick(&audit_before, "uniq") == pick(&audit_after, "uniq")) as u8,
+                    (pick(&audit_before, "vdeps") == pick(&audit_after, "vdeps")) as u8
+                );
+            }
+            writeln!(
+                out,
+                "{} {} roundtrip {} nodes_equal={} ac_equal={}{}",
+                id,
+                qid,
+                q[1],
+                (before == after) as u8,
+                (ac_before == handles_string(&new_adf.ac)) as u8,
+                audit
+            )
+            .unwrap();
+            *adf = new_adf;
+        }
+        "audit" => {
+            #[cfg(adf_obdd_verif)]
+            {
+                // FNV-1a over the canonical dump of every bookkeeping table (line by line)
+                let a = adf.bdd.verif_audit();
+                let hs: Vec<String> = a
+                    .lines()
+                    .map(|l| {
+                        let mut h: u64 = 0xcbf29ce484222325;
+                        for b in l.bytes() {
+                            h ^= b as u64;
+                            h = h.wrapping_mul(0x100000001b3);
+                        }
+                        format!("{}={:016x}", l.split(' ').next().unwrap_or(""), h)
+                    })
+                    .collect();
+                writeln!(out, "{} {} audit {}", id, qid, hs.join(" ")).unwrap();
+            }
+        }
+        "ops" => {
+            // extra formulas built on the shared diagram; registers start as the acceptance conditions
+            let mut regs: Vec<Term> = adf.ac.clone();
+            let mut res: Vec<String> = Vec::new();
+            for o in q[1].split(';') {
+                let w: Vec<&str> = o.split(':').collect();
+                let r = |i: usize, regs: &Vec<Term>| regs[w[i].parse::<usize>().unwrap() % regs.len()];
+                let t = match w[0] {
+                    "var" => adf.bdd.variable(Var(w[1].parse().unwrap())),
+                    "not" => { let a = r(1, &regs); adf.bdd.not(a) }
+                    "and" => { let (a, b) = (r(1, &regs), r(2, &regs)); adf.bdd.and(a, b) }
+                    "or" => { let (a, b) = (r(1, &regs), r(2, &regs)); adf.bdd.or(a, b) }
+                    "xor" => { let (a, b) = (r(1, &regs), r(2, &regs)); adf.bdd.xor(a, b) }
+                    "iff" => { let (a, b) = (r(1, &regs), r(2, &regs)); adf.bdd.iff(a, b) }
+                    "imp" => { let (a, b) = (r(1, &regs), r(2, &regs)); adf.bdd.imp(a, b) }
+                    "restrict" => { let a = r(1, &regs); adf.bdd.restrict(a, Var(w[2].parse().unwrap()), w[3] == "1") }
+                    _ => panic!("bad op {}", o),
+                };
+                regs.push(t);
+                res.push(t.value().to_string());
+            }
+            writeln!(out, "{} {} ops {}", id, qid, res.join(",")).unwrap();
+        }
+        "facets" => {
+            let g = adf.grounded();
+            let f = adf.facet_count(&g);
+            writeln!(
+                out,
+                "{} {} facets {}",
+                id,
+                qid,
+                f.iter().map(|(m, (cf, fc))| format!("{}/{}:{}:{}", m.cmodels, m.models, cf, fc)).collect::<Vec<_>>().join(" ")
+            )
+            .unwrap();
+        }
         "acs" => {
             writeln!(out, "{} {} acs {}", id, qid, handles_string(&adf.ac)).unwrap();
         }
@@ -242,10 +343,81 @@ fn run_leaf(id: &str, lines: &[String], out: &mut String) {
     }
 }
 
+
+/// STREAM cases (C19): a producer store streams its nodes; the harness owns the channels and moves
+/// pending nodes towards the relay / the receiver one by one, so that every cut of the message
+/// stream can be placed between individual node creations.
+#[cfg(feature = "frontend")]
+fn run_stream(id: &str, lines: &[String], out: &mut String) {
+    use adf_bdd::datatypes::BddNode;
+    use adf_bdd::obdd::Bdd;
+    use crossbeam_channel::unbounded;
+    let (p_tx, p_rx) = unbounded::<BddNode>(); // producer -> harness
+    let (r_in_tx, r_in_rx) = unbounded::<BddNode>(); // harness -> relay
+    let (r_out_tx, r_out_rx) = unbounded::<BddNode>(); // relay -> harness
+    let (c_in_tx, c_in_rx) = unbounded::<BddNode>(); // harness -> receiver
+    let mut producer = Bdd::with_sender(p_tx);
+    let mut relay = Bdd::with_sender_receiver(r_out_tx, r_in_rx);
+    let mut receiver = Bdd::with_receiver(c_in_rx);
+    let mut regs: Vec<Term> = Vec::new();
+    let mut k = 0usize;
+    let tab = |b: &Bdd| crate::table_string(b);
+    for line in lines {
+        let w: Vec<&str> = line.split_whitespace().collect();
+        if w.is_empty() {
+            continue;
+        }
+        let reg = |s: &str, regs: &Vec<Term>| regs[s.parse::<usize>().unwrap()];
+        match w[0] {
+            "var" => regs.push(producer.variable(Var(w[1].parse().unwrap()))),
+            "not" => regs.push(producer.not(reg(w[1], &regs))),
+            "and" => regs.push(producer.and(reg(w[1], &regs), reg(w[2], &regs))),
+            "or" => regs.push(producer.or(reg(w[1], &regs), reg(w[2], &regs))),
+            "imp" => regs.push(producer.imp(reg(w[1], &regs), reg(w[2], &regs))),
+            "iff" => regs.push(producer.iff(reg(w[1], &regs), reg(w[2], &regs))),
+            "xor" => regs.push(producer.xor(reg(w[1], &regs), reg(w[2], &regs))),
+            "restrict" => regs.push(producer.restrict(reg(w[1], &regs), Var(w[2].parse().unwrap()), w[3] == "1")),
+            "const" => regs.push(Bdd::constant(w[1] == "1")),
+            "pump1" => {
+                for _ in 0..w[1].parse::<usize>().unwrap() {
+                    if let Ok(n) = p_rx.try_recv() {
+                        r_in_tx.send(n).unwrap();
+                    }
+                }
+            }
+            "pump2" => {
+                for _ in 0..w[1].parse::<usize>().unwrap() {
+                    if let Ok(n) = r_out_rx.try_recv() {
+                        c_in_tx.send(n).unwrap();
+                    }
+                }
+            }
+            "poll1" => {
+                let f = relay.recv(Term(w[1].parse().unwrap()));
+                writeln!(out, "{} q{} poll1 {} {}", id, k, f as u8, relay.nodes.len()).unwrap();
+                k += 1;
+            }
+            "poll2" => {
+                let f = receiver.recv(Term(w[1].parse().unwrap()));
+                writeln!(out, "{} q{} poll2 {} {}", id, k, f as u8, receiver.nodes.len()).unwrap();
+                k += 1;
+            }
+            "tables" => {
+                writeln!(out, "{} q{} tables {} | {} | {}", id, k, tab(&producer), tab(&relay), tab(&receiver)).unwrap();
+                k += 1;
+            }
+            _ => panic!("bad stream line {}", line),
+        }
+    }
+}
+#[cfg(not(feature = "frontend"))]
+fn run_stream(_id: &str, _lines: &[String], _out: &mut String) {}
+
 pub fn run_case(id: &str, kind: &str, _rest: &[String], lines: &[String], out: &mut String) {
     match kind {
         "NG" => run_ng(id, lines, out),
         "LEAF" => run_leaf(id, lines, out),
+        "STREAM" => run_stream(id, lines, out),
         _ => panic!("unknown case kind {}", kind),
     }
 }
